@@ -561,7 +561,9 @@ impl endpoint::Session for ListenerSession {
                 } else {
                     // Session-level flow with no link handle — nothing to buffer.
                 }
-                Ok(None)
+                // The flow may have reopened the remote-incoming-window: the transfers
+                // that were waiting for it must not wait for the next flow
+                self.session.drain_buffered_transfers()
             }
             Err(e) => Err(e),
         }
